@@ -252,6 +252,7 @@ def run_property(pid: str, instances: List[Instance], meta: dict, tier: str, see
     goals_missing = []
     unsupported = []
     concretized = []
+    degraded = []
     for inst, o in zip(_INSTANCES, outs):
         for k in tot:
             tot[k] += o.get(k, 0)
@@ -275,9 +276,16 @@ def run_property(pid: str, instances: List[Instance], meta: dict, tier: str, see
         for x in o["concretized"]:
             concretized.append(f"{inst.name}: {x}")
         miss = [g for g in inst.goals if g not in o["goals"]]
-        if miss and not o["errors"]:
+        if o["concretized"] and not o["errors"] and (o["ok_paths"] == 0 or miss):
+            # the code left the modelled subset on (some of) this instance's paths: those were
+            # replayed concretely on the real build; the instance is degraded, not broken
+            degraded.append(f"{inst.name}: {len(o['concretized'])} path(s) concretized ({o['concretized'][0][:100]})")
+            continue_checks = False
+        else:
+            continue_checks = True
+        if continue_checks and miss and not o["errors"]:
             goals_missing.append(f"{inst.name}: coverage goals not witnessed: {miss}")
-        if o["ok_paths"] == 0 and not o["errors"] and not inst.meta.get("allow_no_ok_paths"):
+        if continue_checks and o["ok_paths"] == 0 and not o["errors"] and not inst.meta.get("allow_no_ok_paths"):
             goals_missing.append(f"{inst.name}: no feasible completed path (vacuous harness)")
         for v in o["violations"]:
             k = _match_known(known, pid, v)
@@ -289,6 +297,9 @@ def run_property(pid: str, instances: List[Instance], meta: dict, tier: str, see
     # unsupported paths are outside the modelled subset: nothing is claimed on them
     if unsupported:
         inconclusive.extend(unsupported)
+    # a check most of whose instances ran only concretely decides nothing symbolically
+    if len(degraded) * 2 > len(_INSTANCES):
+        inconclusive.append(f"{len(degraded)} of {len(_INSTANCES)} instances left the modelled subset and were only replayed concretely")
 
     for k, v in known_seen:
         pass
@@ -352,6 +363,7 @@ def run_property(pid: str, instances: List[Instance], meta: dict, tier: str, see
             "concretized_paths": len(concretized),
             "concretized_paths_sample": concretized[:10],
             "unsupported_paths": unsupported[:20],
+            "degraded_instances": degraded[:40],
             "inconclusive": inconclusive[:20],
             "harness_problems": problems[:20],
             "known_findings_seen": [k.get("what") for k, _ in known_seen][:20],
